@@ -297,7 +297,11 @@ pub async fn run_client(spec: ClientSpec) {
     let mut open = true;
     for (idx, step) in spec.steps.iter().enumerate() {
         if !open {
-            break;
+            // the connection is gone: events other actors wait for are still announced
+            if let Step::Emit { ev } = step {
+                world::emit(ev);
+            }
+            continue;
         }
         let mut rec = StepRec { client: id, idx, start_seq: simcore::log::world(|| format!("client {} step {} begin", id, idx)), start_us: simcore::clock::now_us(), ..Default::default() };
         match step {
